@@ -20,7 +20,7 @@ ASSUMPTIONS = [
 NSHARDS = {"quick": 64, "thorough": 128}
 BUDGET_S = {"quick": 240, "thorough": 2400}
 MIN_HITS = {
-    'quick': {"program": 135944, "exh": 134634, "cond": 230, "random": 960, "ref_ok": 115020, "ref_fail": 20874, "op_148": 4302, "op_153": 218, "op_128": 199, "op_113": 44, "op_100": 460},
+    'quick': {"program": 146311, "exh": 145001, "cond": 230, "random": 960, "ref_ok": 125387, "ref_fail": 20874, "op_148": 4302, "op_153": 218, "op_128": 328, "op_113": 44, "op_100": 460},
     'thorough': {"program": 539362, "exh": 78340, "cond": 222, "random": 460800, "ref_ok": 350901, "ref_fail": 188451, "op_148": 41827, "op_153": 28434, "op_128": 21555, "op_113": 22450, "op_100": 151784},
 }
 
